@@ -15,7 +15,7 @@ from jsonpath.exceptions import (
 from vlib import spines
 from vlib.hs import Leaf, P, kf, ok, pick, small, why
 
-ENV = JSONPathEnvironment()
+ENV = JSONPathEnvironment(well_typed=P.get("well_typed", True))
 IS = Union[int, str]
 QTEXT = P.get("qtext", "$[?@.a in @.b]")
 COMPILED = ENV.compile(QTEXT)
